@@ -19,7 +19,7 @@ for m in sorted(glob.glob(os.path.join(V, "seeded", "*", "meta.json"))):
     meta = json.load(open(m))
     if not os.path.exists(os.path.join(d, "patch.diff")):
         continue
-    props = list(set((meta.get("detected_by_properties") or []) + [meta["property"]]))
+    props = [meta["property"]]  # the check of the property the change was written against (cross-property detection is in seeded/INDEX.md)
     out.append({"id": "seeded-" + os.path.basename(d), "patch": os.path.relpath(os.path.join(d, "patch.diff"), V), "properties": sorted(set(props)), "what": meta.get("summary", "")[:240]})
 # hand-written catalogue (DESIGN §10), crafted as compiling patches by a sub-agent from the descriptions
 GAPS = {"C12-03": "lock re-acquisition reached only through an interface call with several possible targets; lock-order edges follow precise callees only (DESIGN §11.2, §15)"}
